@@ -389,8 +389,12 @@ def _uses_expr(fn):
 
 
 def r5_siblings(ctx, sym):
-    ctx.rule('R5', "ensure_X and prevent_X compute their occurrence list by the same expression, return "
-                   "_check_usage(<field>, uses), and report the location of an element of uses")
+    ctx.rule('R5', "ensure_X and prevent_X, both executed abstractly on the same model program (the finders are stubs "
+                   "that record the query and hand back marker nodes): the two siblings hand _check_usage the same "
+                   "occurrences - obtained by the same finder queries -, return its verdict, and any location they "
+                   "report is taken from one of those occurrences")
+    from .. import symexec
+    from ..fdeval import Raised
     mod = ctx.repo.module(STATIC)
     pairs = 0
     for q, cls in sorted(mod.classes.items()):
@@ -399,38 +403,97 @@ def r5_siblings(ctx, sym):
         other = 'prevent_' + q[len('ensure_'):]
         if other not in mod.classes:
             continue
-        if 'condition' not in {s.name for s in cls.body if isinstance(s, ast.FunctionDef)}:
-            continue
-        e_fn = mod.func(q + '.condition')
-        p_fn = mod.func(other + '.condition')
-        ctx.analysed_function(mod, e_fn)
-        ctx.analysed_function(mod, p_fn)
-        if not any(True for _ in calls(e_fn, '_check_usage')):
+        e_ci, p_ci = sym.find_class(STATIC, q), sym.find_class(STATIC, other)
+        e_m, p_m = sym.method(e_ci, 'condition'), sym.method(p_ci, 'condition')
+        if e_m is None or p_m is None or q in ('ensure_import',):
             continue  # ensure_import / prevent_import: boolean siblings, checked below
-        pairs += 1
-        a, b = _uses_expr(e_fn), _uses_expr(p_fn)
-        ctx.check(a == b, 'R5', '%s/%s:uses' % (q, other), mod, p_fn,
-                  "the two siblings count different things: %s vs %s" % (a, b),
-                  "a program for which ensure and prevent disagree about the number of occurrences",
-                  construct='; '.join(b)[:200])
-        for name, fn in ((q, e_fn), (other, p_fn)):
-            rets = [n for n in body_walk(fn) if isinstance(n, ast.Return)]
-            ok = len(rets) >= 1 and all(
-                isinstance(r.value, ast.Call) and norm(r.value.func) == 'self._check_usage'
-                and len(r.value.args) == 2 and isinstance(r.value.args[1], ast.Name) for r in rets)
-            ctx.check(ok, 'R5', name + ':returns_check_usage', mod, fn,
-                      "condition does not return self._check_usage(<field>, <uses>)",
-                      "threshold logic bypassed", construct='return ...')
-            if ok:
-                uses_var = rets[-1].value.args[1].id
-                for c in calls(fn, 'update_location'):
-                    # location must be derived from an element of the uses list
-                    srcs = [n for n in ast.walk(c) if isinstance(n, ast.Subscript)
-                            and isinstance(n.value, ast.Name)]
-                    okloc = bool(srcs) and all(s.value.id == uses_var for s in srcs)
-                    ctx.check(okloc, 'R5', name + ':location', mod, c,
-                              "reported location is not taken from one of the counted occurrences",
-                              "feedback line does not point at an occurrence", construct=norm(c))
+        ctx.analysed_function(e_m[0].module, e_m[1])
+        ctx.analysed_function(p_m[0].module, p_m[1])
+        scenarios = [dict(name='x', literal=5, literal_type=t) for t in (int, str, bool, list, dict, float)] \
+            if 'literal_type' in q else [dict(name='x', literal=5, literal_type=int)]
+        decided = 0
+        for fields in scenarios:
+            outcome = {}
+            for cname, m in ((q, e_m), (other, p_m)):
+                queries = []
+                pool = {}
+
+                def found(finder, *args, **kw):
+                    key = (finder,) + tuple(a for a in args if isinstance(a, (str, int, float, bool, type(None)))) + \
+                        tuple(sorted((k, v) for k, v in kw.items() if isinstance(v, (str, int, float, bool))))
+                    queries.append(key)
+                    if key not in pool:
+                        nodes = []
+                        for i in range(2):
+                            n_ = Obj('node:%s#%d' % ('/'.join(map(str, key)), i), value=1 if i == 0 else 1.5,
+                                     lineno=10 + i, __open__=True)
+                            n_.attrs['match_root'] = n_
+                            symexec.method(n_, 'match_location', lambda *a, n_=n_: ('location-of', n_))
+                            nodes.append(n_)
+                        pool[key] = nodes
+                    return list(pool[key])
+                root = Obj('root')
+                symexec.method(root, 'find_all', lambda *a, **k: found('find_all', *a, **k))
+                symexec.method(root, 'find_matches', lambda *a, **k: found('find_matches', *a, **k))
+                rec = symexec.Recorder()
+                verdict = symexec.marker('verdict-of-_check_usage')
+                fmt = Obj('format', __open__=True)
+                fmt.attrs['__unknown_method__'] = lambda n, *a, **k: 'formatted'
+                me = symexec.self_obj(m[0].module, cname, fields=dict(fields, root=root),
+                                      report=Obj('report', format=fmt))
+                symexec.method(me, '_check_usage', rec.stub('_check_usage', ret=verdict))
+                symexec.method(me, 'update_location', rec.stub('update_location'))
+                fd = symexec.new_fd(sym, m[0].module, calls={
+                    'find_function_calls': lambda *a, **k: found('find_function_calls', *a),
+                    'find_operation': lambda *a, **k: found('find_operation', *a),
+                    'Location.from_ast': lambda n_: ('location-of', n_), 'repr': repr,
+                    'isinstance': lambda o, t: isinstance(o, t) if isinstance(t, (type, tuple)) else False},
+                    extra={'AST_NODE_NAMES': {}})
+                try:
+                    got = fd.call_function(m[1], [], bound_self=me)
+                except (Raised, Inconclusive) as ex:
+                    outcome = None
+                    break
+                usage = rec.named('_check_usage')
+                locs = rec.named('update_location')
+                uses = usage[0][1][1] if len(usage) == 1 and len(usage[0][1]) >= 2 else None
+                outcome[cname] = dict(got=got, verdict=verdict, uses=uses, field=usage[0][1][0] if usage else None,
+                                      queries=sorted(set(queries)), locs=locs, n_usage=len(usage))
+            if outcome is None:
+                continue
+            decided += 1
+            tag = '%s/%s%s' % (q, other, '[%s]' % fields['literal_type'].__name__ if 'literal_type' in q else '')
+            e_o, p_o = outcome[q], outcome[other]
+
+            def names(xs):
+                return [getattr(x, '_name', x) for x in xs] if isinstance(xs, list) else xs
+            ctx.check(e_o['uses'] is not None and p_o['uses'] is not None and names(e_o['uses']) == names(p_o['uses'])
+                      and e_o['queries'] == p_o['queries'], 'R5', tag + ':uses', mod, p_m[1],
+                      "the two siblings count different things: %s via %s vs %s via %s" % (
+                          names(e_o['uses']), e_o['queries'], names(p_o['uses']), p_o['queries']),
+                      "a program for which ensure and prevent disagree about the number of occurrences")
+            for cname, o in ((q, e_o), (other, p_o)):
+                ctx.check(o['n_usage'] == 1 and o['got'] is o['verdict'], 'R5', cname + ':returns_check_usage' + tag[len(q) + len(other) + 1:],
+                          mod, (e_m if cname == q else p_m)[1],
+                          "condition does not return the verdict of one self._check_usage(<field>, <occurrences>) call",
+                          "threshold logic bypassed")
+                for ev in o['locs']:
+                    arg = ev[1][0] if ev[1] else None
+                    src = arg[1] if isinstance(arg, tuple) and arg and arg[0] == 'location-of' else None
+                    line_of = [u for u in (o['uses'] or []) if isinstance(u, Obj) and u.attrs.get('lineno') == arg]
+                    ctx.check((src is not None and any(src is u for u in (o['uses'] or []))) or bool(line_of), 'R5',
+                              cname + ':location' + tag[len(q) + len(other) + 1:], mod, (e_m if cname == q else p_m)[1],
+                              "reported location %r is not taken from one of the counted occurrences" % (arg,),
+                              "feedback line does not point at an occurrence")
+        if decided:
+            pairs += 1
+        else:
+            # conditions outside the fragment: compare the statements computing the occurrences textually
+            a_, b_ = _uses_expr(e_m[1]), _uses_expr(p_m[1])
+            pairs += 1
+            ctx.check(a_ == b_, 'R5', '%s/%s:uses' % (q, other), mod, p_m[1],
+                      "the two siblings count different things (textual fallback): %s vs %s" % (a_, b_),
+                      "a program for which ensure and prevent disagree about the number of occurrences")
     ctx.floor('R5', 'ensure/prevent sibling pairs', pairs, 5)
     # import siblings, executed abstractly on a model program: ensure_import fires exactly when the queried name is
     # not the module of an `import M [as A]` / `from M import ...` statement, prevent_import exactly when it is
